@@ -4,6 +4,27 @@
 #include <xercesc/util/XMLUniDefs.hpp>
 #include <xercesc/framework/XMLRecognizer.hpp>
 #include <xercesc/framework/MemBufInputSource.hpp>
+#include <xercesc/util/BinMemInputStream.hpp>
+#include <xercesc/util/XMLUTF8Transcoder.hpp>
+#include <xercesc/util/XMLUTF16Transcoder.hpp>
+#include <xercesc/util/XMLUCS4Transcoder.hpp>
+#include <xercesc/util/XML88591Transcoder.hpp>
+#include <xercesc/util/XMLASCIITranscoder.hpp>
+#include <xercesc/util/XMLChTranscoder.hpp>
+#include <xercesc/util/XMLEBCDICTranscoder.hpp>
+#include <xercesc/util/XMLIBM1047Transcoder.hpp>
+#include <xercesc/util/XMLIBM1140Transcoder.hpp>
+#include <xercesc/util/XMLWin1252Transcoder.hpp>
+#include <sstream>
+#include <map>
+#include <memory>
+// the reader's members fEncoding / fTranscoder are what the model of setEncoding speaks about; they have no
+// getters, so this translation unit (only) reads them directly
+#define private public
+#define protected public
+#include <xercesc/internal/XMLReader.hpp>
+#undef private
+#undef protected
 #include <xercesc/sax2/SAX2XMLReader.hpp>
 #include <xercesc/sax2/XMLReaderFactory.hpp>
 #include <xercesc/sax2/DefaultHandler.hpp>
@@ -118,6 +139,90 @@ static std::string doParse(const std::vector<uint32_t>& bytes) {
     return "ok " + showHex(h.text.data(), h.text.size(), 4);
 }
 
+// which transcoder is this: class number as in Gen/GenEncNames.v + byte swapping observed on two/four bytes;
+// anything else (a converter of the transcoding service, or none at all) is "service"
+static std::string describe(XMLTranscoder* t) {
+    if (!t) return "service";
+    int cls = -1;
+    if (dynamic_cast<XMLChTranscoder*>(t)) cls = 0;
+    else if (dynamic_cast<XMLASCIITranscoder*>(t)) cls = 1;
+    else if (dynamic_cast<XMLUTF8Transcoder*>(t)) cls = 2;
+    else if (dynamic_cast<XML88591Transcoder*>(t)) cls = 3;
+    else if (dynamic_cast<XMLUTF16Transcoder*>(t)) cls = 4;
+    else if (dynamic_cast<XMLUCS4Transcoder*>(t)) cls = 5;
+    else if (dynamic_cast<XMLEBCDICTranscoder*>(t)) cls = 6;
+    else if (dynamic_cast<XMLIBM1047Transcoder*>(t)) cls = 7;
+    else if (dynamic_cast<XMLIBM1140Transcoder*>(t)) cls = 8;
+    else if (dynamic_cast<XMLWin1252Transcoder*>(t)) cls = 9;
+    if (cls < 0) return "service";
+    int sw = 0;
+    if (cls == 4 || cls == 5) {
+        XMLByte in[8] = {0, 0, 0, 0x41, 0, 0, 0, 0};
+        XMLCh out[8] = {0};
+        unsigned char sizes[8];
+        XMLSize_t eaten = 0;
+        try {
+            XMLSize_t n = (cls == 4) ? t->transcodeFrom(in + 2, 2, out, 4, eaten, sizes) : t->transcodeFrom(in, 4, out, 4, eaten, sizes);
+            sw = (n == 1 && out[0] == 0x41) ? 1 : 0;       // read as big endian on this little-endian host
+        } catch (...) { sw = 0; }                            // 0x41000000 is not a code point: not swapped
+    }
+    return std::to_string(cls) + " " + std::to_string(sw);
+}
+
+static std::string xstr(const std::vector<uint32_t>& u, std::vector<XMLCh>& buf) {
+    buf.assign(u.size() + 1, 0);
+    for (size_t i = 0; i < u.size(); i++) buf[i] = (XMLCh)u[i];
+    return "";
+}
+
+static std::string exName(const XMLException& e) {
+    if (e.getCode() == XMLExcepts::Trans_CantCreateCvtrFor) return "Trans_CantCreateCvtrFor";
+    if (e.getCode() == XMLExcepts::XMLRec_UnknownEncoding) return "XMLRec_UnknownEncoding";
+    return exceptString(e);
+}
+
+static std::string doMkTrans(const std::vector<uint32_t>& name) {
+    std::vector<XMLCh> nm; xstr(name, nm);
+    XMLTransService::Codes rc;
+    try {
+        std::unique_ptr<XMLTranscoder> t(XMLPlatformUtils::fgTransService->makeNewTranscoderFor(nm.data(), rc, 4096));
+        return "ok " + describe(t.get());
+    } catch (const XMLException& e) { return "err " + exName(e); }
+    catch (...) { return "err exception"; }
+}
+
+static std::string doMkEnum(int e) {
+    XMLTransService::Codes rc;
+    try {
+        std::unique_ptr<XMLTranscoder> t(XMLPlatformUtils::fgTransService->makeNewTranscoderFor((XMLRecognizer::Encodings)e, rc, 4096));
+        if (!t) return "ok none";
+        return "ok " + describe(t.get());
+    } catch (const XMLException& e2) { return "err " + exName(e2); }
+    catch (...) { return "err exception"; }
+}
+
+// an entity whose first bytes are `raw`: what the reader detected, then setEncoding(name)
+static std::string doSetEnc(const std::vector<uint32_t>& raw, const std::vector<uint32_t>& name) {
+    std::vector<XMLByte> in(raw.size() + 8, 0);
+    for (size_t i = 0; i < raw.size(); i++) in[i] = (XMLByte)raw[i];
+    std::vector<XMLCh> nm; xstr(name, nm);
+    static const XMLCh sysId[] = { 'm', 'e', 'm', 0 };
+    try {
+        BinMemInputStream* strm = new BinMemInputStream(in.data(), raw.size(), BinMemInputStream::BufOpt_Reference);
+        XMLReader rd(0, sysId, strm, XMLReader::RefFrom_NonLiteral, XMLReader::Type_General, XMLReader::Source_External);
+        int before = (int)rd.fEncoding;
+        bool ok = rd.setEncoding(nm.data());
+        if (!ok) {
+            // a rejected declaration must leave the reader as it was
+            if ((int)rd.fEncoding != before) return "ok 0 changed";
+            return "ok 0";
+        }
+        const XMLCh* es = rd.getEncodingStr();
+        return "ok 1 " + std::to_string((int)rd.fEncoding) + " " + showHex(es, XMLString::stringLen(es), 4) + " " + describe(rd.fTranscoder);
+    } catch (const XMLException& e) { return "err " + exName(e); }
+    catch (...) { return "err exception"; }
+}
+
 static const char* encName(XMLRecognizer::Encodings e) {
     switch (e) {
     case XMLRecognizer::EBCDIC: return "EBCDIC"; case XMLRecognizer::UCS_4B: return "UCS_4B";
@@ -167,7 +272,21 @@ int main() {
             std::vector<XMLByte> in(b.size() + 1, 0);
             for (size_t i = 0; i < b.size(); i++) in[i] = (XMLByte)b[i];
             r = std::string("ok ") + encName(XMLRecognizer::basicEncodingProbe(in.data(), b.size()));
-        } else if (a.size() == 2 && a[0] == "parse")
+        } else if (a.size() == 2 && a[0] == "encfor") {
+            std::vector<XMLCh> nm; xstr(parseHex(a[1], 4), nm);
+            r = "ok " + std::to_string((int)XMLRecognizer::encodingForName(nm.data()));
+        } else if (a.size() == 2 && a[0] == "namefor") {
+            try {
+                const XMLCh* n = XMLRecognizer::nameForEncoding((XMLRecognizer::Encodings)atoi(a[1].c_str()), XMLPlatformUtils::fgMemoryManager);
+                r = "ok " + showHex(n, XMLString::stringLen(n), 4);
+            } catch (const XMLException& e) { r = "err " + exName(e); }
+        } else if (a.size() == 2 && a[0] == "mktrans")
+            r = doMkTrans(parseHex(a[1], 4));
+        else if (a.size() == 2 && a[0] == "mkenum")
+            r = doMkEnum(atoi(a[1].c_str()));
+        else if (a.size() == 3 && a[0] == "setenc")
+            r = doSetEnc(parseHex(a[1], 2), parseHex(a[2], 4));
+        else if (a.size() == 2 && a[0] == "parse")
             r = doParse(parseHex(a[1], 2));
         std::cout << r << "\n";
     }
